@@ -156,7 +156,7 @@ class Direct:
             else:
                 self.info["not_taken"] += 1
         elif k == "loop":
-            _, _style, lid, start, stop, step, body = s
+            _, _style, lid, start, stop, step, body = s[:7]
             n = 0
             for i in range(start, stop, step):
                 self.loopvars[lid] = i
@@ -261,6 +261,8 @@ class SdkRun:
         self.qubits: Dict[int, Any] = {}
         self.futures: List[Tuple[Any, Any]] = []  # (ref, Future handle) kept for later host reads
         self.n_flush = 0
+        self.reuse_handles = False
+        self.handle_cache: Dict[Any, Any] = {}
 
     def ref(self, r, for_add_operand=False, for_cond=False):
         from netqasm.sdk.futures import RegFuture
@@ -269,8 +271,12 @@ class SdkRun:
             return r
         k = r[0]
         if k == "elem":
+            key = (r[1], r[2])
+            if self.reuse_handles and key in self.handle_cache:
+                return self.handle_cache[key]  # the same Future object used again, as `m = q.measure(); ... m ... m` does
             f = self.arrays[r[1]].get_future_index(r[2])
             self.futures.append((r, f))
+            self.handle_cache[key] = f
             return f
         if k == "elemloop":
             return self.arrays[r[1]].get_future_index(self.loops[r[2]])
@@ -327,9 +333,20 @@ class SdkRun:
                 else:
                     fn(self.ref(x), cb)
         elif k == "loop":
-            _, style, lid, start, stop, step, body = s
+            _, style, lid, start, stop, step, body = s[:7]
+            explicit = s[7] if len(s) > 7 else None
+            kw = {}
+            if explicit == "lowest-free":
+                # the caller names a register it knows to be free (here: the lowest free one)
+                kw["loop_register"] = str(conn.builder._mem_mgr.get_inactive_register())
+            elif explicit:
+                kw["loop_register"] = explicit
             if style == "ctx":
-                with conn.loop(stop, start=start, step=step) as reg:
+                if "loop_register" in kw:
+                    from netqasm.lang.parsing.text import parse_register
+
+                    kw["loop_register"] = parse_register(kw["loop_register"])
+                with conn.loop(stop, start=start, step=step, **kw) as reg:
                     self.loops[lid] = reg
                     self.run_block(body)
             else:
@@ -338,7 +355,7 @@ class SdkRun:
                     self.loops[lid] = regfut
                     self.run_block(body)
 
-                conn.loop_body(lb, stop, start=start, step=step)
+                conn.loop_body(lb, stop, start=start, step=step, **kw)
         elif k == "foreach":
             _, lid, aid, wi, body = s
             arr = self.arrays[aid]
@@ -583,21 +600,34 @@ class _Gen:
 
     def s_loop(self, scope, depth):
         style = self.pick(["ctx", "body"])
-        step = self.pick([1, 1, 2])
-        start = self.d(st.integers(0, 2))
+        step = self.pick([1, 1, 2, -1, -2]) if self.o.get("negative_steps", True) else self.pick([1, 1, 2])
         iters = self.d(st.integers(0, 3))
-        stop = start + iters * step
+        if step > 0:
+            start = self.d(st.integers(0, 2))
+            stop = start + iters * step
+            hi = stop
+        else:
+            stop = self.d(st.integers(-1, 1))
+            start = stop - iters * step  # counts down to `stop` (exclusive); all loop values are > stop >= -1, i.e. >= 0
+            hi = max(start + 1, 1)
         lid = self.n_loop
         self.n_loop += 1
         inner = self._inner(scope, in_loop=True)
-        inner["loop_hi"][lid] = stop  # values < stop (when iters > 0)
+        inner["loop_hi"][lid] = hi  # loop values are non-negative and < hi (array indexing only if it fits)
         if style == "body":
             inner["loopvars_fut"].append(lid)
         body = self.block(inner, depth + 1)
         body += self._close_qubits(inner)
         if not body:
             return []
-        return [["loop", style, lid, start, stop, step, body]]
+        explicit = None
+        if self.o.get("explicit_loop_register", True) and self.chance(1, 4):
+            # a named register only for outermost loops (nested loops must not share one); "lowest-free" anywhere
+            explicit = self.pick(["lowest-free", "lowest-free", "C9", "R12"]) if depth == 0 else "lowest-free"
+        out = ["loop", style, lid, start, stop, step, body]
+        if explicit:
+            out.append(explicit)
+        return [out]
 
     def s_foreach(self, scope, depth):
         cands = [aid for aid, a in self.arrays.items() if a["defined"] and not a.get("implicit")]
@@ -750,4 +780,4 @@ def st_program(draw, opts=None):
     stmts.append(["flush"])
     n_meas_bound = 40
     outcomes = draw(st.lists(st.integers(0, 1), min_size=0, max_size=n_meas_bound))
-    return {"stmts": stmts, "outcomes": outcomes, "qubits": g.budget}
+    return {"stmts": stmts, "outcomes": outcomes, "qubits": g.budget, "reuse_handles": draw(st.booleans())}
